@@ -967,9 +967,16 @@ class Evaluator(object):
             n = len(tg.elts)
             self.site("unpack", node, n=n, value=v, starred=any(isinstance(e, ast.Starred) for e in tg.elts))
             rows = self._array_rows(v) if hasattr(v, "op") and not any(isinstance(e, ast.Starred) for e in tg.elts) else None
+            star_at = [i_ for i_, e_ in enumerate(tg.elts) if isinstance(e_, ast.Starred)]
             for k, e in enumerate(tg.elts):
-                if isinstance(e, ast.Starred):
+                if isinstance(e, ast.Starred) and len(star_at) == 1 and hasattr(v, "op"):
+                    # first, *rest = xs: rest is xs[1:] (as a list); *init, last = xs: init is xs[:-1]
+                    after = n - k - 1
+                    self.assign(e.value, tm.sub(v, tm.mk("slice", tm.const(k) if k else tm.none(), tm.const(-after) if after else tm.none(), tm.none())), env, node)
+                elif isinstance(e, ast.Starred):
                     self.assign(e.value, tm.unk("starred"), env, node)
+                elif len(star_at) == 1 and k > star_at[0] and hasattr(v, "op"):
+                    self.assign(e, tm.sub(v, tm.const(k - n)), env, node)  # an element after the starred one: counted from the end
                 elif rows is not None and len(rows) == n:
                     self.assign(e, rows[k], env, node)  # a, b = np.array([A, B]): the rows
                 else:
